@@ -80,8 +80,13 @@ func newBscWorld(cfg bscCfg) *bscWorld {
 	// recent signers: heights at or below the head, distinct
 	// the pending set recorded by Initialize / the last epoch block (always present on an initialised client)
 	var pending [][]byte
-	for i := 0; i < rt.IntRange("pendingValidators", 1, cfg.maxPending); i++ {
-		pending = append(pending, rt.BytesN("pendingValidator", 20))
+	np := rt.IntRange("pendingValidators", 1, cfg.maxPending)
+	for i := 0; i < np; i++ {
+		pv := rt.BytesN("pendingValidator", 20)
+		for _, o := range pending {
+			rt.Assume(!bytes.Equal(o, pv)) // an epoch header lists each validator once
+		}
+		pending = append(pending, pv)
 	}
 	SetPendingValidators(w.store, cdc, pending)
 	k := rt.IntRange("recents", 0, cfg.maxRecents)
@@ -124,6 +129,11 @@ func VerifC09Structure() {
 // VerifC09Epoch: epoch blocks carrying 0..2 addresses and the delayed validator-set switch.
 func VerifC09Epoch() {
 	c09Header(bscCfg{name: "epoch", minVals: 2, maxVals: 2 + rt.Tier(), epochs: []uint64{2, 3}[:1+rt.Tier()], maxPending: 2, maxRecents: 0, extraLens: []int{97, 117, 137}})
+}
+
+// VerifC09Recents: the recorded recent signers across the delayed validator-set switch, with growing and shrinking sets.
+func VerifC09Recents() {
+	c09Header(bscCfg{name: "recents", minVals: 2, maxVals: 2 + rt.Tier(), epochs: []uint64{2}, maxPending: 4, maxRecents: 1 + rt.Tier(), extraLens: []int{97}})
 }
 
 func c09Header(cfg bscCfg) {
@@ -193,6 +203,22 @@ func c09Header(cfg bscCfg) {
 			}
 		}
 		rt.Assert("B6-pending-set-is-the-epoch-header's-list", same)
+	}
+	// B7: which recorded signers are forgotten: exactly the one leaving the (new) window, plus on a shrinking switch the
+	// ones between the old and the new window; everything else stays
+	limitOld, limitNew := n/2+1, len(ncs.Validators)/2+1
+	for h := range w.rec {
+		if h == number {
+			continue
+		}
+		forgotten := number >= uint64(limitNew) && h == number-uint64(limitNew)
+		if number%w.cs.Epoch == uint64(n/2) && limitNew < limitOld {
+			for i := 0; i < limitOld-limitNew; i++ {
+				forgotten = forgotten || h+uint64(limitNew)+uint64(i) == number
+			}
+		}
+		present := w.store.Get(keyRecentSinger(Signer{Height: clienttypes.Height{RevisionHeight: h}})) != nil
+		rt.Assert("B7-recent-signers-forgotten-exactly-as-the-window-moves", present == !forgotten)
 	}
 	if number%w.cs.Epoch != uint64(n/2) {
 		same := len(ncs.Validators) == n
